@@ -75,6 +75,8 @@ class C16Check(ExplainerCheck):
             cfg["model"]["family"] = "linear" if cfg["model"]["family"] not in ("linear", "hash") else cfg["model"]["family"]
             cfg["model"].pop("labels", None)
             cfg["loss"]["family"] = "lin"
+        if arith == "float" and cfg["loss"]["family"] in ("sq", "abs", "lin") and rng.random() < 0.15:
+            cfg["loss"]["scale_exp"] = rng.choice([150, 300, 312, 318])      # down into the subnormal range
         ops = gen_schedule(rng, cfg, mix=[("explain", 62), ("learn", 8), ("store", 6), ("observe", 24)],
                            T=rng.randint(100, 300) if (run_index % (40 if tier == "thorough" else 80) == 13 and arith != "exact") else None)
         strip_private(cfg)
